@@ -305,11 +305,7 @@ def keyAttrsInUse (t : Table) : List Bytes :=
 
 /-- `Table.UpdateAttributeDefinition`: a definition that gives a key attribute in use another type -/
 def redefinesKeyAttr (t : Table) (defs : List (Bytes × Bytes)) : Bool :=
-  defs.any fun (n, ty) =>
-    !n.isEmpty && (keyAttrsInUse t).contains n &&
-      match alookup n t.attrs with
-      | some declared => declared != ty
-      | none => false
+  defs.any fun (n, ty) => (keyAttrsInUse t).contains n && (alookup n t.attrs).getD [] != ty
 
 /-- `UpdateTable`: attribute definitions of the created indexes are merged first (a definition that re-types a key attribute in use is rejected), then
     the changes are applied in order; a failing change stops the call, earlier ones stay -/
